@@ -6,7 +6,7 @@ import numpy as np
 from static_frame.core.index_base import IndexBase
 
 from sim.core import Violation
-from sim.snap import norm, norm_list, snap_index, first_diff, arr_cells
+from sim.snap import norm, norm_list, snap_index, first_diff, arr_cells, strict_snap
 from worlds.base import SimulatedFailure, enc, dec, call
 from worlds.gmodel import IxM, DATE_UNITS, GO_OF, STATIC_OF, is_go, unhashable, expected_index_snap, learn_index
 
@@ -303,6 +303,40 @@ class IndexOps:
             return sf.FrameGO.from_records(rows, index=e.obj.index, columns=cols) if rows else None
         return None
 
+    def _grow_call(self, e, fn, exp):
+        '''Run growth `fn` on the object. A *shadow* - a deep copy taken before the first call that is expected
+        to be rejected - receives only the calls the object accepted, so it never sees a rejected call: after
+        every later accepted growth both must look the same, dtypes included (a rejected call must leave no
+        hidden trace that surfaces only on the next growth).'''
+        import copy
+        shadow = e.extra.get('shadow')
+        pre = None
+        if shadow is None and exp != 'accept' and self.want('C09.atomic'):
+            st0, pre = call(copy.deepcopy, e.obj)
+            if st0 == 'raise':
+                pre = None
+        st, r = call(fn, e.obj)
+        if st == 'raise':
+            if shadow is None and pre is not None:
+                e.extra['shadow'] = pre
+        elif shadow is not None:
+            e.extra['shadow_applied'] = call(fn, shadow)[0]
+        return st, r
+
+    def _shadow_check(self, e, site, cls):
+        shadow = e.extra.get('shadow')
+        if shadow is None or not self.want('C09.atomic'):
+            return
+        if e.extra.pop('shadow_applied', 'ok') != 'ok':
+            e.extra.pop('shadow', None)  # the copy rejected what the object accepted: not comparable any further
+            return
+        st, a = call(strict_snap, e.obj)
+        st2, b = call(strict_snap, shadow)
+        self.probe('shadow-compared-after-rejected-growth')
+        if st == 'ok' and st2 == 'ok' and a != b:
+            raise Violation('C09.atomic.trace', site, cls, 'after a rejected growth call and a later accepted one the container differs from a '
+                            'copy that never saw the rejected call: ' + first_diff(b, a))
+
     def _growth_failed(self, e, op, site, cls, supplied, exc, expectation, fn=None):
         '''Common handling of a growth call that raised.'''
         self.fault('growth-' + cls.split('@')[0])
@@ -334,6 +368,7 @@ class IndexOps:
         e.extra['failed'] = False
         e.extra['last_growth'] = (site, cls)
         self.touch(e, warm=0)
+        self._shadow_check(e, site, cls)
 
     def do_ix_append(self, op, dec_):
         e = self.get(op['h'], ('ix',))
@@ -344,7 +379,7 @@ class IndexOps:
         site = f'{m.cls}.append'
         exp, cls = self._classify_label(e, label)
         fn = lambda t: t.append(label)
-        st, r = call(fn, e.obj)
+        st, r = self._grow_call(e, fn, exp)
         if st == 'raise':
             return self._growth_failed(e, op, site, cls, [label], r, exp, fn)
         if exp == 'must':
@@ -417,7 +452,7 @@ class IndexOps:
             else:
                 arg = list(labels)
             t.extend(arg)
-        st, r = call(fn, e.obj)
+        st, r = self._grow_call(e, fn, exp)
         if st == 'raise':
             return self._growth_failed(e, op, site, cls, labels, r, 'accept' if exp == 'accept' else exp, fn)
         if exp in ('must', 'fail'):
